@@ -40,6 +40,24 @@ def gen_cases(rng, n):
                 continue
         vs = vars_of(phi) or ["x"]
         subs, main, cdecl, named = decompose(rng, phi, S, consts=False)
+        if kind == "on" and rng.random() < 0.15:
+            # a stateful sub-formula that is named at its first occurrence and written out again at a second one; its value settles
+            # (unbounded once / historically) while the samples below it keep changing: get_value of the variables and of the names
+            # must follow the samples (seed r11 C12-2: the results of the repeated occurrence were not refreshed while its value
+            # stayed the same)
+            import copy as _copy
+            from modular import text_with_names
+            q1 = un(rng.choice(["once", "hist", "once"]), g.atom())
+            if rng.random() < 0.3:
+                q1 = bi(rng.choice(["and", "or"]), q1, g.atom())
+            q2 = _copy.deepcopy(q1)
+            rest = rng.choice([lambda: un("not", un(rng.choice(["sprev", "prev"]), q2)), lambda: un(rng.choice(["sprev", "prev", "not"]), q2),
+                               lambda: bi("or", q2, g.atom())])()
+            phi = bi(rng.choice(["and", "or", "implies"]), q1, rest)
+            vs = vars_of(phi) or ["x"]
+            subs = ["seen = " + to_text(q1, S)]
+            main = text_with_names(phi, S, {id(q1): "seen"})
+            named = [("seen", q1)]
         if not named:
             continue
         o1 = dt_obj(phi, S, vs)
